@@ -140,6 +140,10 @@ def _observe(task):
         return [v], collections.Counter()
 
 
+class _BudgetExceeded(Exception):
+    pass
+
+
 class Result:
     def __init__(self):
         self.states = 0
@@ -162,10 +166,16 @@ def explore(check, cfgs, alpha_args, bounds, budget_s=None, workers=None, log=pr
     ctx = multiprocessing.get_context("fork")
     t_start = time.time()
     with ctx.Pool(workers, initializer=_init_worker, initargs=(check, cfgs, alpha_args)) as pool:
-        for ci, cfg in enumerate(cfgs):
-            _bfs(pool, check, ci, cfg, bounds, res, t_start, budget_s, workers, log)
-            if os.environ.get("TFMC_FAIL_FAST") and res.violations:
-                break
+        try:
+            for ci, cfg in enumerate(cfgs):
+                _bfs(pool, check, ci, cfg, bounds, res, t_start, budget_s, workers, log)
+                if os.environ.get("TFMC_FAIL_FAST") and res.violations:
+                    break
+        except _BudgetExceeded:
+            skipped = [c["name"] for c in cfgs[len(res.per_config):]]
+            if skipped:
+                res.caps.append("not started because the time budget was used up: " + ", ".join(skipped))
+            pool.terminate()
     return res
 
 
@@ -199,6 +209,9 @@ def _bfs(pool, check, ci, cfg, bounds, res, t_start, budget_s, workers, log):
         tasks = [(ci, h, pre) for (h, pre) in frontier]
         new_frontier = []
         for (h, pre), (succs, counters) in zip(frontier, pool.imap(_expand, tasks, _chunks(len(tasks), workers))):
+            if budget_s is not None and time.time() - t_start > budget_s:
+                _finish_capped(res, cfg, states, transitions, depth, t0, f"time budget {budget_s}s used up inside depth {depth + 1}; depth {depth} was completed")
+                raise _BudgetExceeded()
             res.counters.update(counters)
             for op, outcome, key, post, viols in succs:
                 if op == ("noop-marker",):
@@ -215,6 +228,9 @@ def _bfs(pool, check, ci, cfg, bounds, res, t_start, budget_s, workers, log):
         # phase B: observers on the new states
         otasks = [(ci, h, post) for (h, post) in new_frontier]
         for (h, post), (viols, counters) in zip(new_frontier, pool.imap(_observe, otasks, _chunks(len(otasks), workers))):
+            if budget_s is not None and time.time() - t_start > budget_s:
+                _finish_capped(res, cfg, states, transitions, depth - 1, t0, f"time budget {budget_s}s used up while observing depth {depth}; depth {depth - 1} was completed")
+                raise _BudgetExceeded()
             res.counters.update(counters)
             _record(res, check, cfg, h, viols)
         res.observed_states += len(new_frontier)
@@ -241,6 +257,16 @@ def _bfs(pool, check, ci, cfg, bounds, res, t_start, budget_s, workers, log):
         res.exhaustive = False
     if not closed:
         res.closed_all = False
+
+
+def _finish_capped(res, cfg, states, transitions, depth, t0, why):
+    res.states += states
+    res.transitions += transitions
+    res.per_config.append({"config": cfg["name"], "states": states, "transitions": transitions, "depth_completed": depth,
+                           "closed": False, "cap": why, "wall_s": round(time.time() - t0, 2)})
+    res.caps.append(f"{cfg['name']}: {why}")
+    res.exhaustive = False
+    res.closed_all = False
 
 
 def _record(res, check, cfg, history, viols):
